@@ -49,6 +49,17 @@ MUTATION_DRILLS = [
     {"mutation": "deployer.cc Run(): message_sink_(\"deploy\", result) moved before the task loop ('success' sent before the tasks ran)",
      "ran": "same", "fired": "VIOLATION with failing input exec-after-last-result (5011 schedules) and lost:tasks-not-run-where-the-model-runs-them; "
                              "8162 differing schedules; table_shape_ok false"},
+    {"mutation": "service.cc Notify(): copies notification_handler_ under mutex_, drops the lock, calls the copy (round-2 seeded change)",
+     "ran": "same (scratch worktree of /repo 9d9d51b)",
+     "fired": "VIOLATION with failing inputs from the blocked-setter probes: handler:invocation-overlaps-setter-return "
+              "(1 SM:101 H0 C SU:110 SU:211 | ccccccwwwwwwwwwwwwwC: ret:H:0 observed between hin:0 and hout, 31 probes) and "
+              "handler:replaced-handler-invoked (hin:1 after set_notification_handler call #2 returned, 17 probes); table_shape_ok false"},
+    {"mutation": "deployer.cc Run(): drains the queue in batches (TakePendingTasks swaps the queue), try/catch around the whole batch "
+                 "(round-2 seeded change)",
+     "ran": "same",
+     "fired": "VIOLATION with failing input lost:task-scheduled-before-start-not-run (1 SU:211 J IM | tccccccwwwwwwwwwwwwwwwwcc: task 0 "
+              "throws, 'deploy failure', tasks 1 and 2 never run, join returns, is_maintenance_mode()=0; 310 schedules) and "
+              "lost:task-scheduled-before-last-result-not-run, found by the tolerant search; table_shape_ok false"},
     {"mutation": "unfixed tree (/repo 6f9c578, before a1848ee): Set/ClearNotificationHandler without mutex_, Notify tests outside the lock",
      "ran": "bin/check C15 quick on /repo before the fix",
      "fired": "VIOLATION with failing inputs: ThreadSanitizer race:rime::Service::Notify|rime::Service::SetNotificationHandler, "
@@ -491,7 +502,9 @@ MANIFEST = {
                  "library by a schedule controller over yield hooks + ThreadSanitizer stress",
     "text": "Properties_C15.v proves over ALL micro-step schedules and all client scripts of Dep/Sched.v (Deployer::Run cut at its "
             "hook points x the client's API calls): session operations are refused while the worker's future is not ready and accepted "
-            "after; no session operation is in progress while a worker exists; no task runs twice, none vanishes; every task scheduled "
+            "after; no session operation is in progress while a worker exists; every handler invocation is of the handler installed by "
+            "the latest returned set_notification_handler call and no such call returns during an invocation (handler_excl); no task "
+            "runs twice, none vanishes (tasks may return true/false or throw); every task scheduled "
             "before a worker was started has run when IsWorking() turns false (task_not_lost, the strongest true form); deploy "
             "notifications are (start result+)* complete whenever no worker exists; no two conflicting accesses of the generated "
             "lock-scope table are enabled together (race_free); the handler is never called empty. The stronger 'every scheduled task "
